@@ -886,12 +886,12 @@ def unroll_array_loops(F, fn, max_len=8, max_region=400):
             if not (w or "").endswith("into_iter") or not isinstance(t.get("target"), int):
                 continue
             a0 = t["args"][0]
-            if a0["k"] not in ("copy", "move") or a0["p"]["p"] or t["dest"]["p"]:
+            if t["dest"]["p"] or (a0["k"] in ("copy", "move") and a0["p"]["p"]):
                 continue
             elems, table = None, None
             by_value = False
             if "array" in str(r):
-                elems = _array_elements(base, defs, a0["p"]["l"])
+                elems = _array_elements(base, defs, a0["p"]["l"]) if a0["k"] in ("copy", "move") else None
                 if not elems:
                     # `for e in CONST_TABLE` (by value)
                     table = _const_table(F, base, defs, blocks, a0)
@@ -899,7 +899,7 @@ def unroll_array_loops(F, fn, max_len=8, max_region=400):
                         elems, by_value = table[2], True
             else:
                 # TABLE.iter() over a constant table: into_iter(<[T]>::iter(&TABLE))
-                ds_ = defs.get(a0["p"]["l"], [])
+                ds_ = defs.get(a0["p"]["l"], []) if a0["k"] in ("copy", "move") else []
                 if len(ds_) == 1 and ds_[0] is None:
                     for pb_ in blocks:
                         pt_ = pb_["term"]
@@ -1344,3 +1344,127 @@ def _expand_one(F, fn, bi, kind, cid, ablk, table):
         nxt = head
     blocks[bi]["term"] = goto(nxt)
     fn.setdefault("unrolled", []).append({"quantifier": kind, "elements": len(refs)})
+
+
+# ----------------------------------------------------------------------------------------
+# `let m = matches!(x, V); if m {..}` / `if helper_returning_bool() {..}` after the helper was spliced in: a local that is only ever
+# assigned literal booleans in blocks that jump straight to the one switch reading it. Each assigning block goes directly to the
+# branch its literal selects (jump threading) - the test of x is then the test the rules see.
+
+def body_hash(fn):
+    import hashlib, json
+
+    def strip(x):
+        if isinstance(x, dict):
+            return {k: strip(v) for k, v in x.items() if k not in ("line", "fn_line", "line_hi", "file", "exp")}
+        if isinstance(x, list):
+            return [strip(v) for v in x]
+        return x
+    return hashlib.sha256(json.dumps(strip(fn["blocks"]), sort_keys=True).encode()).hexdigest()[:16]
+
+
+def thread_bool_phis(fn):
+    """in place; returns the number of switches threaded"""
+    blocks = fn["blocks"]
+    n = 0
+    already = {}
+    for _ in range(6):
+        uses, defs = {}, {}
+        for bi, b in enumerate(blocks):
+            for st in b["stmts"]:
+                if st["k"] != "assign":
+                    continue
+                defs.setdefault(st["lhs"]["l"], []).append((bi, st))
+                for e in st["lhs"]["p"]:
+                    if isinstance(e, dict) and "i" in e:
+                        uses[e["i"]] = uses.get(e["i"], 0) + 1
+
+                def note(o):
+                    if isinstance(o, dict) and o.get("k") in ("copy", "move"):
+                        uses[o["p"]["l"]] = uses.get(o["p"]["l"], 0) + 1
+                rv = st["rv"]
+                for key in ("o", "a", "b"):
+                    note(rv.get(key))
+                for o in rv.get("ops", []) or []:
+                    note(o)
+                if isinstance(rv.get("p"), dict):
+                    uses[rv["p"]["l"]] = uses.get(rv["p"]["l"], 0) + 1
+            t = b["term"]
+            if t["k"] == "call":
+                defs.setdefault(t["dest"]["l"], []).append((bi, None))
+                for a in t["args"]:
+                    if a.get("k") in ("copy", "move"):
+                        uses[a["p"]["l"]] = uses.get(a["p"]["l"], 0) + 1
+                if t["f"].get("k") in ("copy", "move"):
+                    uses[t["f"]["p"]["l"]] = uses.get(t["f"]["p"]["l"], 0) + 1
+            elif t["k"] == "switch" and t["d"].get("k") in ("copy", "move"):
+                uses[t["d"]["p"]["l"]] = uses.get(t["d"]["p"]["l"], 0) + 1
+            elif t["k"] == "yield":
+                if t["value"].get("k") in ("copy", "move"):
+                    uses[t["value"]["p"]["l"]] = uses.get(t["value"]["p"]["l"], 0) + 1
+                if isinstance(t.get("resume_arg"), dict):
+                    defs.setdefault(t["resume_arg"]["l"], []).append((bi, None))
+            elif t["k"] == "drop":
+                uses[t["p"]["l"]] = uses.get(t["p"]["l"], 0) + 1
+            elif t["k"] == "assert" and t["cond"].get("k") in ("copy", "move"):
+                uses[t["cond"]["p"]["l"]] = uses.get(t["cond"]["p"]["l"], 0) + 1
+        did = False
+        for si, sb in enumerate(blocks):
+            t = sb["term"]
+            if t["k"] != "switch" or sb["cleanup"] or t["d"].get("k") not in ("copy", "move") or t["d"]["p"]["p"]:
+                continue
+            x = t["d"]["p"]["l"]
+            if uses.get(x, 0) != 1 or x == 0 or x <= fn.get("arg_count", 0):
+                continue
+            if sb["stmts"]:
+                # `if flag` reads the user variable through a temporary: `_t = copy flag; switchInt(move _t)`
+                only = sb["stmts"][0] if len(sb["stmts"]) == 1 else None
+                if only is None or only["k"] != "assign" or only["lhs"] != {"l": x, "p": []} or only["rv"]["k"] != "use" \
+                        or only["rv"]["o"].get("k") not in ("copy", "move") or only["rv"]["o"]["p"]["p"]:
+                    continue
+                x = only["rv"]["o"]["p"]["l"]
+                if uses.get(x, 0) != 1 or x == 0 or x <= fn.get("arg_count", 0):
+                    continue
+            ds = defs.get(x, [])
+            if len(ds) < 2 or any(st is not None and st["lhs"]["p"] for _, st in ds):
+                continue
+            # the literal assignments: each such block ends (through empty gotos) in this switch, the assignment is its last statement;
+            # other definitions (`a && b` whose last operand is a real test) keep going through the switch
+            lits = [(bi, st) for bi, st in ds if st is not None and st["rv"]["k"] == "use" and st["rv"]["o"].get("k") == "const"
+                    and st["rv"]["o"].get("ty") == "bool" and st["rv"]["o"].get("val") is not None]
+            if not lits:
+                continue
+            ok = True
+            plan = []
+            for bi, st in lits:
+                b = blocks[bi]
+                if not b["stmts"] or b["stmts"][-1] is not st or b["term"]["k"] != "goto":
+                    ok = False
+                    break
+                if already.get((bi, si)):
+                    continue
+                y, hops = b["term"]["target"], 0
+                while y != si and hops < 4 and not blocks[y]["stmts"] and blocks[y]["term"]["k"] == "goto":
+                    y = blocks[y]["term"]["target"]
+                    hops += 1
+                if y != si:
+                    ok = False
+                    break
+                v = 1 if st["rv"]["o"]["val"] else 0
+                tg = dict((a, g) for a, g in t["targets"]).get(v, t.get("otherwise"))
+                if not isinstance(tg, int):
+                    ok = False
+                    break
+                plan.append((bi, tg))
+            if not ok or not plan:
+                continue
+            for bi, tg in plan:
+                blocks[bi]["term"] = dict(blocks[bi]["term"], target=tg)
+                already[(bi, si)] = True
+                # the literal is not read any more (its only reader was the switch that is now bypassed)
+                blocks[bi]["stmts"] = blocks[bi]["stmts"][:-1]
+            n += 1
+            did = True
+        if not did:
+            break
+    return n
